@@ -34,10 +34,10 @@ CONSTANTS Sigs,        \* signal numbers used by the scripts
           CbArms,      \* TRUE: a Pending answer of the callback leaves the waker armed (observed)
           TryFirst     \* TRUE: the callback reads optimistically (async-io); FALSE: only after readiness (tokio)
 
-VARIABLES w, flags, closed, parked, edge, viol,      \* monitor
+VARIABLES w, flags, closed, parked, edge, viol, ended,   \* monitor
           bytes, pos, armed, ready, nops             \* implementation model
 
-mvars == <<w, flags, closed, parked, edge, viol>>
+mvars == <<w, flags, closed, parked, edge, viol, ended>>
 ivars == <<bytes, pos, armed, ready, nops>>
 vars == <<mvars, ivars>>
 
@@ -45,7 +45,7 @@ End == 1000     \* iterator position past the last slot
 Min(S) == CHOOSE x \in S : \A y \in S : x <= y
 
 MonInit == /\ w = Watched0 /\ flags = {} /\ closed = FALSE /\ parked = FALSE /\ edge = FALSE
-           /\ viol = {}
+           /\ viol = {} /\ ended = FALSE
 ImplInit == bytes = 0 /\ pos = 0 /\ armed = FALSE /\ ready = FALSE /\ nops = 0
 Init == MonInit /\ ImplInit
 
@@ -55,26 +55,29 @@ Init == MonInit /\ ImplInit
 MonRaise(s) ==
     /\ flags' = IF s \in w THEN flags \cup {s} ELSE flags
     /\ edge' = IF s \in w THEN TRUE ELSE edge
-    /\ UNCHANGED <<w, closed, parked, viol>>
+    /\ UNCHANGED <<w, closed, parked, viol, ended>>
 
-MonClose == closed' = TRUE /\ edge' = TRUE /\ UNCHANGED <<w, flags, parked, viol>>
+MonClose == closed' = TRUE /\ edge' = TRUE /\ UNCHANGED <<w, flags, parked, viol, ended>>
 
 MonAdd(s, ok) == /\ w' = (IF ok THEN w \cup {s} ELSE w)
-                 /\ UNCHANGED <<flags, closed, parked, edge, viol>>
+                 /\ UNCHANGED <<flags, closed, parked, edge, viol, ended>>
 
 \* poll_next answered res ("pending" | "sig" | "none" | "panic"), n = the signal for "sig"
 MonPoll(res, n) ==
     /\ UNCHANGED <<w, closed, edge>>
+    /\ ended' = (ended \/ res = "none")
     /\ CASE res = "sig" ->
               /\ flags' = flags \ {n}
               /\ parked' = FALSE
               /\ viol' = viol \cup (IF n \in flags THEN {} ELSE
                                       IF n \in w THEN {"yield_without_delivery"}
                                       ELSE {"yield_of_unwatched_signal"})
-                              \cup (IF closed THEN {"signal_after_close_observed"} ELSE {})
+                              \* the stream had ended (it answered None): it does not come back
+                              \cup (IF ended THEN {"stream_yielded_after_it_ended"} ELSE {})
          [] res = "pending" ->
               /\ parked' = TRUE
               /\ viol' = viol \cup (IF closed THEN {"pending_after_close"} ELSE {})
+                              \cup (IF ended THEN {"stream_yielded_after_it_ended"} ELSE {})
               /\ UNCHANGED flags
          [] res = "none" ->
               /\ parked' = FALSE
@@ -91,7 +94,7 @@ MonBatch(got) ==
                             ELSE {"yield_of_unwatched_signal"})
                     \cup (IF flags \subseteq got THEN {} ELSE {"batch_misses_delivered_signal"})
     /\ edge' = FALSE          \* flush() drained whatever was in the pipe
-    /\ UNCHANGED <<w, closed>>
+    /\ UNCHANGED <<w, closed, ended>>
 
 \* the reactor ran; n = wakes of the waker given to the last poll (stream adapters)
 MonTurnStream(n) ==
@@ -100,20 +103,21 @@ MonTurnStream(n) ==
           (IF parked /\ n = 0 /\ flags # {} /\ ~closed THEN {"stranded_with_unreported_signal"} ELSE {})
     /\ parked' = IF n > 0 THEN FALSE ELSE parked
     /\ edge' = FALSE
-    /\ UNCHANGED <<w, flags, closed>>
+    /\ UNCHANGED <<w, flags, closed, ended>>
 
 \* mio: Poll::poll returned n readable events for the token
 MonTurnMio(n) ==
     /\ viol' = viol \cup (IF edge /\ n = 0 THEN {"no_readiness_event_after_delivery"} ELSE {})
     /\ edge' = FALSE
-    /\ UNCHANGED <<w, flags, closed, parked>>
+    /\ UNCHANGED <<w, flags, closed, parked, ended>>
 
 \* which property each finding belongs to
 V_C09 == viol \cap {"stranded_with_unreported_signal", "batch_misses_delivered_signal",
                     "no_readiness_event_after_delivery", "stream_ended_without_close",
                     "poll_panicked", "probe_died"} = {}
 V_C10 == viol \cap {"yield_without_delivery", "yield_of_unwatched_signal"} = {}
-V_C11 == viol \cap {"stranded_after_close", "pending_after_close", "probe_hung"} = {}
+V_C11 == viol \cap {"stranded_after_close", "pending_after_close", "probe_hung",
+                    "stream_yielded_after_it_ended"} = {}
 
 ----------------------------------------------------------------------------
 (* Implementation model: poll_signal (backend.rs:485-513) with the adapter's *)
